@@ -74,34 +74,27 @@ theorem claimed_after_deps_visited {g : Graph} {lim : Option Nat} (hg : GraphOK 
     (v : V) (hv : s.status v ≠ .absent) : ∀ d ∈ g.pre v, s.status d = .visited :=
   (reach_inv hg h).l.depsVisited v (.inr hv)
 
-/-- **bounded (partial)**: as long as no visitor error has been handed to the errgroup, at most `n` visitor
-callbacks are in progress under `WithMaxConcurrency(n)`.  (Without the hypothesis the statement is false on the
-unchanged tree: `Neg/C13.lean`.) -/
-theorem bounded_partial {g : Graph} {n : Nat} (hg : GraphOK g) {s : St} (h : Reach g (some n) s)
-    (hnc : s.cancelled = false) : running s ≤ n := by
+/-- **bounded**: never more than `n` visitor callbacks in progress under `WithMaxConcurrency(n)` — for every schedule,
+error or not.  (Full strength since the repair of DESIGN §10 #12: the coordinator keeps its errgroup slot until the
+caller has left the extremities loop; the behaviour of the code before the repair is kept in `Neg/C13.lean`.) -/
+theorem bounded {g : Graph} {n : Nat} (hg : GraphOK g) {s : St} (h : Reach g (some n) s) : running s ≤ n := by
   have hI := reach_inv hg h
+  have h2 := List.length_filter_le (fun (p : V × WPc) => p.2 == WPc.running) s.workers
   cases ha : s.cAlive with
   | true =>
     have := hI.s.semLe n rfl
     simp only [sem, ha, if_true] at this
-    have h2 := List.length_filter_le (fun (p : V × WPc) => p.2 == WPc.running) s.workers
     unfold running; omega
   | false =>
-    rcases hI.s.cDeadWhy ha with hc | hall
-    · rw [hnc] at hc; cases hc
+    rcases hI.s.cDeadBound ha with hall | ⟨_, hlen⟩
     · have : s.workers.filter (fun p => p.2 == WPc.running) = [] := by
         rw [List.filter_eq_nil_iff]
         rintro ⟨v, pc⟩ hm
         obtain ⟨e, rfl⟩ := hI.a.handedPc v pc (.inr (hall v (hI.b.wkVerts v pc hm))) hm
         simp
       unfold running; rw [this]; exact Nat.zero_le _
-
-/-- **bounded (always)**: never more than `n + 1` visitor callbacks at once, error or not. -/
-theorem bounded_plus_one {g : Graph} {n : Nat} (hg : GraphOK g) {s : St} (h : Reach g (some n) s) :
-    running s ≤ n + 1 := by
-  have := (reach_inv hg h).s.semLe n rfl
-  have h2 := List.length_filter_le (fun (p : V × WPc) => p.2 == WPc.running) s.workers
-  unfold running; unfold sem at this; omega
+    · have := hlen n rfl
+      unfold running; omega
 
 /-- **deadlock-free**: every reachable state that is not terminal has an enabled step — in particular a worker
 that finished is never forgotten by the coordinator (no lost wake-up), whatever the completion order. -/
